@@ -3,6 +3,7 @@ package main
 import (
 	"encoding/binary"
 	"fmt"
+	gobinlog "github.com/Breeze0806/gobinlog"
 
 	"github.com/Breeze0806/gobinlog/replication"
 	"verif/harness/internal/vh"
@@ -156,6 +157,7 @@ func runC17(c *Ctx) {
 		}
 	}
 	runC17b(c)
+	runC17e2e(c)
 }
 
 // runC17b: a truncated, over-long or garbage packet injected at every index of a history ends the stream with an
@@ -226,6 +228,74 @@ func runC17b(c *Ctx) {
 				c.R.Add(vh.Mismatch{Kind: "spec", What: "inject: the resume position after a malformed packet is not the last accepted commit boundary", Case: desc,
 					Expected: fmt.Sprint(len(D) - len(before)), Impl: firstDiff(D[len(before):], rest), InDomain: true})
 			}
+		}
+	}
+}
+
+// runC17e2e: malformed packets through the real connection (fake master over TCP): every packet the master sends
+// reaches the validity gate - whatever its type byte says - and the outcome, the deliveries and the stored position
+// are those of the model run on the same packets.
+func runC17e2e(c *Ctx) {
+	r := c.Rng
+	base := libraryGoroutines()
+	typeBytes := []int{27, 27, 4, 15, 16, 19, 2, 3, 34, 35, -1, -1}
+	for k := 0; k < c.N(10, 150); k++ {
+		cfg := baseCfg(r, r.Intn(len(baseCfgs)))
+		h := genHistory(r, cfg, histOpts{units: 3 + r.Intn(4), maxCols: 2, maxRows: 2, rotations: k%3 == 0, ignorables: true})
+		h.encode(c)
+		f0, o0 := startOf(h)
+		evs, _ := h.serve(c, f0, uint32(o0))
+		if len(evs) < 4 {
+			continue
+		}
+		at := 2 + r.Intn(len(evs)-2)
+		src := evs[2+r.Intn(len(evs)-2)]
+		var bad []byte
+		kind := r.PickS("truncated", "extended", "garbage")
+		switch kind {
+		case "truncated":
+			n := 5 + r.Intn(len(src)-5)
+			bad = append([]byte{}, src[:n]...)
+		case "extended":
+			bad = append(append([]byte{}, src...), r.Bytes(1+r.Intn(4))...)
+		default:
+			bad = r.Bytes(5 + r.Intn(40))
+			if len(bad) >= 13 && r.Bool() {
+				bad[9], bad[10], bad[11], bad[12] = byte(len(bad)+1+r.Intn(3)), 0, 0, 0 // length field disagrees
+			}
+		}
+		tb := typeBytes[r.Intn(len(typeBytes))]
+		if tb >= 0 {
+			bad[4] = byte(tb)
+		}
+		packets := append(append(append([][]byte{}, evs[:at]...), bad), evs[at:]...)
+		env, err := newE2E(h.tables, 77, nil)
+		if err != nil {
+			return
+		}
+		env.s.SetBinlogPosition(gobinlog.Position{Filename: f0, Offset: o0})
+		res := env.run(0, e2eAttempt{events: packets, terminal: "eof", cancelInHandler: -1, holdAfter: -1}, base)
+		env.close()
+		a := attempt{startFile: f0, startOff: o0, events: packets, cancelAt: -1, mapper: &hMapper{tables: h.tables}}
+		mpos, mcalls, mout := modelAttempt(c, a, h.mapperVals())
+		c.R.Count(fmt.Sprintf("e2e-inject/%s/type%d", kind, tb))
+		desc := fmt.Sprintf("cfg=%s units=%v %s packet %x sent before served packet %d (through the real connection)", cfg, h.kinds, kind, bad, at)
+		if !res.returned || res.outcome == "panic" {
+			c.R.Add(vh.Mismatch{Kind: "spec", What: "e2e inject: Stream panicked or did not return after a malformed packet", Case: desc, Impl: res.outcome, InDomain: true})
+			continue
+		}
+		if res.outcome != mout {
+			c.R.Add(vh.Mismatch{Kind: "corr", What: "e2e inject: the outcome of the stream differs from the model run on the same packets", Case: desc, Model: mout, Impl: res.outcome, InDomain: true})
+			continue
+		}
+		if joinVals(res.calls) != joinVals(mcalls) {
+			c.R.Add(vh.Mismatch{Kind: "corr", What: "e2e inject: the deliveries differ from the model run on the same packets", Case: desc, Model: vh.Sprintf("%.800s", joinVals(mcalls)), Impl: vh.Sprintf("%.800s", joinVals(res.calls)), InDomain: true})
+		}
+		if posVal(res.stored).String() != mpos.String() {
+			c.R.Add(vh.Mismatch{Kind: "corr", What: "e2e inject: the stored position differs from the model run on the same packets", Case: desc, Model: mpos.String(), Impl: posVal(res.stored).String(), InDomain: true})
+		}
+		if mout == "invalid" && res.streamErr == nil {
+			c.R.Add(vh.Mismatch{Kind: "spec", What: "e2e inject: a packet rejected by the validity test did not end the stream with an error", Case: desc, InDomain: true})
 		}
 	}
 }
